@@ -260,7 +260,7 @@ def run_driver(driver, lines, timeout=3000, jobs=None):
     """
     if not lines:
         return {}
-    jobs = jobs or int(os.environ.get("VERIF_JOBS", "16"))
+    jobs = jobs or int(os.environ.get("VERIF_JOBS", "8"))
     n = max(1, min(jobs, len(lines) // 40))
     if n == 1:
         return _run_driver_chunk(driver, lines, timeout)
